@@ -1,7 +1,8 @@
 (* Properties/C12.v -- Tree-changing commands never silently discard uncommitted work.
    Model: Model/NoLoss.v (+ Model/TextMerge.v of C19, Model/Uncommit.v of C16); proofs: Theory/NoLoss.v.
    Naming: _guarded = holds under an executable guard the proof forces; _refuted = the unguarded statement is
-   false of the faithful model (witness replayed on the real code by the corpus of harness/props/c12.py). *)
+   false of the faithful model (witness replayed on the real code by the corpus of harness/props/c12.py);
+   _old_ = a statement about the code before the repair round (commits cd17d15, 86c5d42, b356f06). *)
 From Coq Require Import NArith List Bool String.
 From BV Require Import Lib.Bytes Model.TextMerge Model.NoLoss Theory.NoLoss.
 From BV Require Lib.Dag Model.Uncommit Theory.Uncommit.
@@ -14,57 +15,54 @@ Open Scope N_scope.
 Theorem C12_keep_content_table :
   forall c, keep_content c =
     is_file (wt_kind c) && (backups c || is_none (target_kind c)) && negb (mm_match c)
-    && (if in_basis c then negb (sha_eq_basis c) else is_none (target_kind c) && negb (target_versioned c)).
+    && (negb (in_basis c) || negb (sha_eq_basis c)).
 Proof. exact keep_content_spec. Qed.
 Print Assumptions C12_keep_content_table.
 
-(* with backups, a user-edited file is backed up or left in place -- provided it is in the basis or the target
-   tree has nothing at its place *)
-Theorem C12_decision_keeps_user_content_guarded :
-  forall c, backups c = true -> user_edited_chg c = true -> chg_guard c = true ->
+(* content is kept exactly when it is user-edited and (backups are on or the target has nothing to put there):
+   nothing else is ever backed up, and no user-edited file is dropped while backups are on *)
+Theorem C12_decision_exact :
+  forall c, keep_content c = (backups c || is_none (target_kind c)) && user_edited_chg c.
+Proof. exact keep_content_iff. Qed.
+Print Assumptions C12_decision_exact.
+
+(* with backups, a user-edited file is backed up or left in place (no guard since cd17d15) *)
+Theorem C12_decision_keeps_user_content :
+  forall c, backups c = true -> user_edited_chg c = true ->
   alter_action c = ABackup \/ alter_action c = AKeepInPlace.
 Proof. exact decision_keeps. Qed.
-Print Assumptions C12_decision_keeps_user_content_guarded.
+Print Assumptions C12_decision_keeps_user_content.
 
-(* ... and without the guard it is deleted although backups are on *)
-Theorem C12_decision_keeps_user_content_refuted :
+(* the OLD decision (before cd17d15, [keep_content_old]) dropped an edited file that the basis lacks and the
+   target tree has; the current one keeps it *)
+Theorem C12_old_decision_refuted :
   exists c, backups c = true /\ user_edited_chg c = true /\ target_versioned c = is_some (target_kind c)
-            /\ alter_action c = ADelete.
-Proof. exact decision_refuted. Qed.
-Print Assumptions C12_decision_keeps_user_content_refuted.
+            /\ keep_content_old c = false /\ keep_content c = true.
+Proof. exact decision_old_refuted. Qed.
+Print Assumptions C12_old_decision_refuted.
 
-(* only user-edited file content is ever kept (no backup of merge results or unchanged files);
-   content that is not a regular file (a retargeted symlink, a directory) is never kept *)
-Theorem C12_decision_exact :
-  forall c, (keep_content c = true -> user_edited_chg c = true)
-            /\ (is_file (wt_kind c) = false -> keep_content c = false).
-Proof. intros c. split; [apply decision_exact|apply decision_nonfile]. Qed.
-Print Assumptions C12_decision_exact.
+(* content that is not a regular file (a retargeted symlink, a directory) is never kept *)
+Theorem C12_decision_nonfile_not_kept :
+  forall c, is_file (wt_kind c) = false -> keep_content c = false.
+Proof. exact decision_nonfile. Qed.
+Print Assumptions C12_decision_nonfile_not_kept.
 
 (* ---- revert on working-tree states ---- *)
 
 (* backups on: every user-edited FILE content is still there afterwards: in place, under <name>.~k~, or under
-   <name>.moved (an unversioned file in the way of a file that comes back).  Guard: the file is in the basis or
-   absent from the target tree.  Only kind = file is covered (see C12_revert_symlink_refuted). *)
-Theorem C12_revert_keeps_user_content_guarded :
+   <name>.moved (an unversioned file in the way of a file that comes back).  No guard on the state.
+   Only kind = file is covered (see C12_revert_symlink_refuted). *)
+Theorem C12_revert_keeps_user_content :
   forall target sel s s' n c,
-  revert target sel true s = Some s' -> user_edited s n c -> name_guard s target n = true ->
+  revert target sel true s = Some s' -> user_edited s n c ->
   NoDup (names (disk s'))
   /\ exists n', In (n', NFile c) (disk s')
                 /\ (n' = n \/ n' = n ++ MOVED \/ exists k, n' = backup_name n k).
 Proof.
-  intros target sel s s' n c Hr Hu Hg. split; [eapply revert_nodup; exact Hr|].
+  intros target sel s s' n c Hr Hu. split; [eapply revert_nodup; exact Hr|].
   eapply revert_keeps; eauto.
 Qed.
-Print Assumptions C12_revert_keeps_user_content_guarded.
-
-(* the statement of DESIGN (no guard) is false: a file absent from the basis, present in the target tree *)
-Theorem C12_revert_keeps_user_content_refuted :
-  exists s', revert t_added (Some [nA]) true s_added = Some s'
-             /\ user_edited s_added nA (b_ "USER EDIT")
-             /\ forall n', ~ In (n', NFile (b_ "USER EDIT")) (disk s').
-Proof. exact revert_added_refuted. Qed.
-Print Assumptions C12_revert_keeps_user_content_refuted.
+Print Assumptions C12_revert_keeps_user_content.
 
 (* a user-retargeted symlink is not preserved (by design of the code: only files are backed up) *)
 Theorem C12_revert_symlink_refuted :
@@ -87,24 +85,19 @@ Proof. intros n used. split; [apply avail_fresh|apply avail_form]. Qed.
 Print Assumptions C12_backup_name_fresh.
 
 (* ---- remove ---- *)
+(* [rm_guard] below is not about the code but about the model: it stands for the reverse-sorted order of the
+   real loop, which the model takes as given (a named path ending in '~' must be one that is backed up) *)
 
-(* no --force: an unknown path (unversioned, not a path of the basis) keeps its content (file, symlink or a
-   whole directory with its unversioned files), under its name or a longer one *)
+(* no --force: an unversioned path keeps its content (file, symlink or a whole directory with its unversioned
+   files), under its name or a longer one -- also when its path is a path of the basis (86c5d42) and whatever
+   characters the name has (b356f06) *)
 Theorem C12_remove_unknown_needs_force_guarded :
   forall s files keep n nd,
   NoDup (names (disk s)) -> rm_guard s files = true ->
-  lookup n (disk s) = Some nd -> memn n (inv s) = false -> lookup n (basis s) = None ->
-  exists n', prefixb n n' = true /\ In (n', nd) (disk (fst (remove files keep false s))).
+  lookup n (disk s) = Some nd -> memn n (inv s) = false ->
+  exists n', prefixb n n' = true /\ In (n', nd) (disk (remove files keep false s)).
 Proof. intros. eapply remove_preserves; eauto using to_backup_unknown. Qed.
 Print Assumptions C12_remove_unknown_needs_force_guarded.
-
-(* "unknown" must exclude paths of the basis: rm --keep f; edit f; rm f  deletes f *)
-Theorem C12_remove_unknown_needs_force_refuted :
-  memn nA (inv s_kept) = false /\ rm_guard s_kept [nA] = true
-  /\ lookup nA (disk s_kept) = Some (NFile (b_ "EDITED"))
-  /\ remove [nA] false false s_kept = ({| basis := basis s_kept; inv := []; disk := []; mm := [] |}, false).
-Proof. exact remove_kept_refuted. Qed.
-Print Assumptions C12_remove_unknown_needs_force_refuted.
 
 (* no --force: a versioned path that is added or whose content changed keeps its content *)
 Theorem C12_remove_modified_needs_force_or_keep_guarded :
@@ -112,24 +105,15 @@ Theorem C12_remove_modified_needs_force_or_keep_guarded :
   NoDup (names (disk s)) -> rm_guard s files = true ->
   lookup n (disk s) = Some nd -> memn n (inv s) = true ->
   lookup n (basis s) = None \/ changed_content (lookup n (basis s)) (Some nd) = true ->
-  exists n', prefixb n n' = true /\ In (n', nd) (disk (fst (remove files keep false s))).
+  exists n', prefixb n n' = true /\ In (n', nd) (disk (remove files keep false s)).
 Proof. intros. eapply remove_preserves; eauto using to_backup_modified. Qed.
 Print Assumptions C12_remove_modified_needs_force_or_keep_guarded.
 
 (* --keep: the disk is not touched at all *)
 Theorem C12_remove_keep_disk_unchanged :
-  forall s files force, disk (fst (remove files true force s)) = disk s.
+  forall s files force, disk (remove files true force s) = disk s.
 Proof. exact remove_keep_disk. Qed.
 Print Assumptions C12_remove_keep_disk_unchanged.
-
-(* the '%' guard is needed: the backup-name probe unescapes its argument, an existing file is overwritten *)
-Theorem C12_remove_percent_name_refuted :
-  memn (backup_name nP 1) (inv s_pct) = false /\ lookup (backup_name nP 1) (basis s_pct) = None
-  /\ lookup (backup_name nP 1) (disk s_pct) = Some (NFile (b_ "PRECIOUS"))
-  /\ snd (remove [nP] false false s_pct) = false
-  /\ forall n', ~ In (n', NFile (b_ "PRECIOUS")) (disk (fst (remove [nP] false false s_pct))).
-Proof. exact remove_percent_refuted. Qed.
-Print Assumptions C12_remove_percent_name_refuted.
 
 (* ---- merge / update / pull / switch: one path ---- *)
 
